@@ -1,4 +1,4 @@
 Require Import Extraction ExtrOcamlBasic ExtrOCamlFloats.
-Require Import Base.Prelude C05.Sweep C05.Model.
+Require Import Base.Prelude C05.Sweep C05.Model C05.Tree C05.TreeFloat.
 Extraction Language OCaml.
-Extraction "model.ml" viewshed_model tree_run.
+Extraction "model.ml" viewshed_model tree_run fc_init fc_step fc_row.
